@@ -260,14 +260,15 @@ Section Stages.
   (* every stage report is error level, except the missing-pragma warning *)
   Lemma item_report_level it :
     r_level (item_report it) = match it with SINoVersion _ => Warning | _ => Error end.
-  Proof. destruct it as [| | | |dd e file]; try reflexivity. simpl. by destruct e. Qed.
+  Proof. destruct it as [| | | |dd e file|]; try reflexivity. simpl. by destruct e. Qed.
 
   Lemma item_report_pfiles it :
     r_pfiles (item_report it) =
     match it with
     | SISugar r => [Z.of_N (Desugar.r_file r)]
     | SILiftError _ _ (Some f) => [Z.of_N f]
+    | SIDuplicate d first => [def_file d; def_file first]
     | _ => []
     end.
-  Proof. destruct it as [| | | |dd e file]; try reflexivity. simpl. by destruct e. Qed.
+  Proof. destruct it as [| | | |dd e file|]; try reflexivity. simpl. by destruct e. Qed.
 End Stages.
